@@ -671,6 +671,10 @@ bool response::need_gzip()
 		// User had defined its own content encoding
 		// he may compress data on its own... disable compression
 		return false;
+	if(!get_header("Content-Length").empty())
+		// The length the user announced is the length of what he writes,
+		// the compressed body would not match it
+		return false;
 	std::string const content_type=get_header("Content-Type");
 	if(protocol::is_prefix_of("text/",content_type))
 		return true;
